@@ -5,19 +5,19 @@ V = "/verif"
 NEEDS = {
  "C01": "en-passant capture where king, captured pawn, capturing pawn and an enemy rook/queen stand on one rank in that order (capturer's from-square not on a king ray)",
  "C02": "double pawn push on the a- or h-file with an enemy pawn on the opposite edge file one rank 'around the corner' (bit-shift wrap-around sets an en-passant square without capturer)",
- "C03": "on-demand tablebase resident in the hash table (go infinite on a <=4-men pawnless root, Hash >= 7 MB) and a mate score in a search without time limit: PV loses its first move",
+ "C03": "on-demand tablebase resident (go infinite on a <=4-men pawnless root, Hash >= 7 MB) and TBProbe::extendPV truncating a PV at a tablebase win: the reported PV loses a move (empty / unplayable PV, duplicate MultiPV first moves)",
  "C04": "on-demand 4-men table in which the white king can capture a black piece (KQvKR, KRvKB, ...) used by an unlimited search: false mate distances",
  "C05": "MultiPV > 1 together with Strength < 200 (root moves dropped): out-of-bounds access at the end of iteration 1, engine dies without bestmove",
  "C06": "hard limit at the clock-minus-buffer clamp (movestogo 1..3 or little clock), hardFactor > hard/soft after a root fail-low, limit expiring while root move 1 is searched",
  "C07": "move made while the evaluator's current stack level is invalid (after copy-assignment / connect) without an evaluation in between, kings on the same squares as in the stale slot",
  "C08": "Hash sizes whose reduced size crosses a power of two (256, 258, 260, 512 ... MB) with a 4-men on-demand tablebase resident and keys in the topmost index slice",
- "C09": "two clock-based searches with an option change queued in between: computeTimeLimit reads UCI parameters while the engine thread may still apply them",
+ "C09": "two clock-based searches with an option change (Ponder / BufferTime ...) queued in between: computeTimeLimit on the protocol thread reads UCI parameters while the engine thread may still apply them (stopThread moved after the reads)",
  "C10": "two pre-emptions after a search that ended by itself: protocol thread between test and wait in waitStop while the engine thread clears 'search' and notifies",
- "C11": "history containing a double push beside an enemy pawn whose en-passant capture is illegal, the position after it recurring twice more",
+ "C11": "history containing a double push beside an enemy pawn whose en-passant capture is illegal (pinned), the position after it recurring twice more (fixupEPSquare hoisted out of the replay loop)",
  "C12": "diagonally symmetric placements (all men on one long diagonal, or twin pieces on mirror squares) with the losing side to move: duplicate moves counted twice",
- "C13": "4-men root at a half-move clock just past the point where the mate fits the 50-move rule, after the same position was searched at an earlier clock in the same bucket",
- "C14": "15 (mod 16) searches since start before Clear Hash (4-bit generation counter not reset)",
- "C15": "predecessor with en-passant right and a quiet piece move landing on the en-passant square or the square behind it, includeAllEpSquares=true",
+ "C13": "4-men root searched at two different half-move clocks that share a hash key once the exact clock is no longer mixed into historyHash for 4 men: the second search reuses a mate score that no longer fits the 50-move rule",
+ "C14": "15 (mod 16) searches since start before Clear Hash (generation reset removed from clear(); identical to the defect fixed in 042a747)",
+ "C15": "predecessor position with an en-passant right where, in the current position, the moved piece stands on the en-passant square or on the pushed pawn's origin square (includeAllEpSquares=true)",
  "C16": "no capture left between prefix and goal, a king boxed in by never-moving pieces whose free neighbour squares are attacked by still mobile enemy pawns",
  "C17": "a $NAG immediately followed by ')' / '(' / '{' / '*' without white space (compact export style)",
  "C18": "a polyglot key holding an illegal entry stored before a legal one (corrupted move byte, foreign entry)",
